@@ -8,14 +8,21 @@ KINDS = ["fn", "const", "struct", "fnhead"]
 
 def random_module_set(rng):
     n = rng.randint(1, 4)
-    names = ["m%d.pn" % i for i in range(n)]
+    if rng.random() < 0.4:
+        # directories: several files share a base name or a path suffix; imports by exact path or relative to the importer
+        pool = ["a/x.pn", "b/a/x.pn", "x.pn", "a/y.pn", "b/y.pn", "c/b/a/x.pn", "a/b/y.pn", "y.pn"]
+        names = rng.sample(pool, n)
+    else:
+        names = ["m%d.pn" % i for i in range(n)]
     mods = []
     counter = 0
     for i in range(n):
         lines = []
         for _ in range(rng.randint(0, 3)):
             k = rng.random()
-            if k < 0.75: target = rng.choice(names)
+            if k < 0.75:
+                target = rng.choice(names)
+                if "/" in target and rng.random() < 0.6: target = rng.choice(["x.pn", "y.pn", "a/x.pn", "b/y.pn", target.split("/", 1)[1]])
             elif k < 0.9: target = "nowhere%d.pn" % rng.randint(0, 2)
             else: target = names[i]
             lines.append('import "%s";' % target)
